@@ -145,6 +145,89 @@ def read_layout(path, node):
         return out
 
 
+# ----------------------------------------------------------------------------- problems (projection)
+
+def project_ds(space):
+    """DesignSpace -> [(name, size, type, lower bounds, upper bounds, current value | None)]."""
+    out = []
+    for name in space.variable_names:
+        cur = space._current_value.get(name) if hasattr(space, "_current_value") else None
+        if cur is None and space.has_current_value:
+            cur = space.get_current_value(as_dict=True).get(name)
+        out.append((name, int(space.get_size(name)), str(space.get_type(name)),
+                    [float(v) for v in space.get_lower_bound(name)],
+                    [float(v) for v in space.get_upper_bound(name)],
+                    None if cur is None else [float(np.real(v)) for v in cur]))
+    return out
+
+
+def _plain(v):
+    if isinstance(v, np.ndarray):
+        return v.tolist()
+    if isinstance(v, (np.floating, np.integer, np.bool_)):
+        return v.item()
+    if isinstance(v, dict):
+        return {str(k): _plain(x) for k, x in v.items() if x is not None}
+    if isinstance(v, (list, tuple)):
+        return [_plain(x) for x in v]
+    if isinstance(v, str):
+        return str(v)
+    return v
+
+
+def project_function(f):
+    return {k: _plain(v) for k, v in f.to_dict().items()}
+
+
+def project_problem(problem):
+    """What C11 says must survive OptimizationProblem.to_hdf / from_hdf, except the database."""
+    sol = problem.solution
+    return {
+        "objective": project_function(problem.objective),
+        # by name: the property speaks of the function descriptions, not of the order in which a
+        # problem lists its constraints (from_hdf lists them in the alphabetical order of HDF5 groups)
+        "constraints": {c.name: project_function(c) for c in problem.constraints},
+        "observables": {c.name: project_function(c) for c in problem.observables},
+        "solution": None if sol is None else {k: _plain(v) for k, v in sol.to_dict().items() if v is not None},
+        "settings": {"minimize_objective": bool(problem.minimize_objective),
+                     "ineq_tolerance": float(problem.tolerances.inequality),
+                     "eq_tolerance": float(problem.tolerances.equality),
+                     "differentiation_step": float(problem.differentiation_step),
+                     "differentiation_method": str(problem.differentiation_method),
+                     "is_linear": bool(problem.is_linear)},
+        "design_space": project_ds(problem.design_space),
+    }
+
+
+def make_problem(database=None, variant=0):
+    """A problem around `database` with an objective, constraints, an observable and a solution."""
+    from gemseo.algos.design_space import DesignSpace
+    from gemseo.algos.optimization_problem import OptimizationProblem
+    from gemseo.algos.optimization_result import OptimizationResult
+    from gemseo.core.mdo_functions.mdo_function import MDOFunction
+
+    space = DesignSpace()
+    space.add_variable("x", 2, lower_bound=np.array([-10.0, -np.inf]), upper_bound=10.0, value=np.array([1.0, 0.5]))
+    problem = OptimizationProblem(space, database=database)
+    problem.objective = MDOFunction(lambda x: float(x @ x), "f", jac=lambda x: 2 * x, expr="x'x",
+                                    input_names=["x"], dim=1)
+    problem.add_constraint(MDOFunction(lambda x: x[:1] - 1, "g", expr="x[0]-1", input_names=["x"], dim=1),
+                           constraint_type="ineq")
+    problem.add_constraint(MDOFunction(lambda x: x[1:] - 0.5, "c", expr="x[1]-0.5", input_names=["x"], dim=1),
+                           constraint_type="eq", value=0.25)
+    problem.add_observable(MDOFunction(lambda x: x.sum(), "obj", input_names=["x"], dim=1))
+    problem.tolerances.inequality = 0.0078125
+    problem.tolerances.equality = 0.03125
+    problem.differentiation_step = 0.001953125
+    if variant % 2 == 0:
+        problem.solution = OptimizationResult(
+            x_0=np.array([1.0, 0.5]), x_opt=np.array([0.25, 0.5]), f_opt=0.3125, status=0, message="done",
+            n_obj_call=3, n_grad_call=2, n_constr_call=3, is_feasible=True, optimizer_name="harness",
+            constraint_values={"g": np.array([-0.75])}, constraints_grad={"g": np.array([[1.0, 0.0]])},
+            x_0_as_dict={"x": np.array([1.0, 0.5])}, x_opt_as_dict={"x": np.array([0.25, 0.5])}, optimum_index=2)
+    return problem
+
+
 # ----------------------------------------------------------------------------- tours
 
 IO_ACTIONS = ("Export", "Reload", "Update", "ExportProblem", "ReloadProblem")
@@ -239,7 +322,9 @@ def op_name(act, args):
 class Replayer:
     """Steps a real Database (and real HDF5 files) through one walk of the HDFStoreImpl graph."""
 
-    def __init__(self, graph, workdir, tag, node):
+    def __init__(self, graph, workdir, tag, node, with_problem=False, variant=0):
+        self.with_problem = with_problem
+        self.variant = variant
         self.g = graph
         self.workdir = Path(workdir)
         self.tag = tag
@@ -247,6 +332,8 @@ class Replayer:
         self.path = self.workdir / f"{tag}.h5"
         self.full = self.workdir / f"{tag}-full.h5"
         self.viol = []
+        self.soft = []
+        self.soft_seen = set()
         self.n_exports = 0
         self.n_reloads = 0
 
@@ -312,6 +399,34 @@ class Replayer:
                 what = next(f for f, a, b in zip(("x", "k", "v", "arr"), lay[i], want[i]) if a != b)
             self.fail("ImplLayout", what, ops, {"entry": bad[0], "impl": lay.get(i), "spec": want.get(i)})
             return False
+        if self.with_problem and state["descr"]:
+            return self.check_problem(ops)
+        return True
+
+    def check_problem(self, ops, loaded=None):
+        """the description in the file reloads to the description of the working problem."""
+        from gemseo.algos.optimization_problem import OptimizationProblem
+
+        if loaded is None:
+            ok, loaded = self.guard("ProblemRoundTrip", ops, OptimizationProblem.from_hdf, self.path,
+                                    hdf_node_path=self.node)
+            if not ok:
+                return False
+        ok, got = self.guard("ProblemRoundTrip", ops, project_problem, loaded)
+        if not ok:
+            return False
+        # a difference in the description does not disturb the database: the walk goes on, and each kind
+        # of difference is reported once per walk (with the history at which it first showed)
+        for part, want in self.reference.items():
+            if got[part] != want:
+                what = part
+                if isinstance(want, dict) and isinstance(got[part], dict):
+                    what += ":" + ",".join(sorted(k for k in set(want) | set(got[part])
+                                                  if want.get(k) != got[part].get(k)))
+                if what not in self.soft_seen:
+                    self.soft_seen.add(what)
+                    self.soft.append({"clause": "ProblemRoundTrip", "what": what, "ops": list(ops),
+                                      "detail": {"impl": got[part], "spec": want}})
         return True
 
     def run(self, edge_ids, final=True):
@@ -319,7 +434,14 @@ class Replayer:
         from gemseo.algos.database import Database
 
         g = self.g
-        database = Database()
+        if self.with_problem:
+            from gemseo.algos.optimization_problem import OptimizationProblem
+
+            problem = make_problem(variant=self.variant)
+            database = problem.database
+            self.reference = project_problem(problem)  # abstract object: what the file must give back
+        else:
+            database = Database()
         ops = []
         state = g.states[g.init[0]]
         steps = 0
@@ -341,11 +463,26 @@ class Replayer:
                 if ok:
                     self.n_exports += 1
                     ok = self.check_file("RoundTrip", ops, state, database)
+            elif act == "ExportProblem":
+                ok, _ = self.guard("ProblemRoundTrip", ops, problem.to_hdf, self.path, append=bool(args[0]),
+                                   hdf_node_path=self.node)
+                if ok:
+                    self.n_exports += 1
+                    ok = self.check_file("RoundTrip", ops, state, database)
+            elif act == "ReloadProblem":
+                ok, new = self.guard("ProblemRoundTrip", ops, OptimizationProblem.from_hdf, self.path,
+                                     hdf_node_path=self.node)
+                if ok:
+                    self.n_reloads += 1
+                    problem, database = new, new.database
+                    ok = self.check_problem(ops, loaded=new)
             elif act == "Reload":
                 ok, new = self.guard("RoundTrip", ops, Database.from_hdf, self.path, hdf_node_path=self.node)
                 if ok:
                     self.n_reloads += 1
                     database = new
+                    if self.with_problem:
+                        problem = make_problem(database=new, variant=self.variant)
             elif act == "Update":
                 ok, _ = self.guard("RoundTrip", ops, database.update_from_hdf, self.path, hdf_node_path=self.node)
                 if ok:
@@ -415,8 +552,8 @@ def run_walk(job):
 
     logging.disable(logging.CRITICAL)
     warnings.filterwarnings("ignore")
-    idx, edge_ids, node, workdir = job
-    r = Replayer(_G, workdir, f"w{idx}", node)
+    idx, edge_ids, node, workdir, with_problem = job
+    r = Replayer(_G, workdir, f"w{idx}", node, with_problem, variant=idx // 2)
     try:
         steps, _ = r.run(edge_ids)
     finally:
@@ -426,7 +563,7 @@ def run_walk(job):
         k = edge_ids[steps]
         short = _TOUR.shortest(_G.edges[k][0]) + [k]
         if len(short) < steps + 1:
-            r2 = Replayer(_G, workdir, f"w{idx}m", node)
+            r2 = Replayer(_G, workdir, f"w{idx}m", node, with_problem, variant=idx // 2)
             try:
                 r2.run(short, final=False)
             finally:
@@ -435,7 +572,9 @@ def run_walk(job):
                 viol = r2.viol
                 for v in viol:
                     v["detail"]["minimised_from_walk_of"] = len(edge_ids)
+    viol = viol + r.soft
     for v in viol:
+        v["node"] = "nested" if node else "root"
         v["detail"]["node"] = node or "(root)"
     return {"idx": idx, "steps": steps, "len": len(edge_ids), "exports": r.n_exports, "reloads": r.n_reloads,
             "viol": viol}
